@@ -98,7 +98,25 @@ Section TvStatic.
     forallb (fun kv => match rdecl_find rdecls (en_type e) (fst kv) with
                        | Some rs => forallb (fun x => mem_bytes x rs) (fval_reqs (snd kv))
                        | None => match fval_reqs (snd kv) with [] => true | _ => false end
-                       end) (en_fields e).
+                       end) (en_fields e) &&
+    (* (U3') declared @requires inputs are plain non-null leaves *)
+    forallb (fun rd : rdecl => negb (bytes_eqb (fst (fst rd)) (en_type e)) || forallb (key_field_ok sc e) (snd rd)) rdecls.
+
+  Lemma ent_contract_keys e :
+    ent_contract_b e = true ->
+    forallb (fun d => negb (bytes_eqb (fst d) (en_type e)) || forallb (key_field_ok sc e) (snd d)) decls = true.
+  Proof. unfold ent_contract_b. intros H. apply andb_true_iff in H. destruct H as [H _]. apply andb_true_iff in H. apply H. Qed.
+  Lemma ent_contract_reqs e :
+    ent_contract_b e = true ->
+    forallb (fun kv => match rdecl_find rdecls (en_type e) (fst kv) with
+                       | Some rs => forallb (fun x => mem_bytes x rs) (fval_reqs (snd kv))
+                       | None => match fval_reqs (snd kv) with [] => true | _ => false end
+                       end) (en_fields e) = true.
+  Proof. unfold ent_contract_b. intros H. apply andb_true_iff in H. destruct H as [H _]. apply andb_true_iff in H. apply H. Qed.
+  Lemma ent_contract_inputs e :
+    ent_contract_b e = true ->
+    forallb (fun rd : rdecl => negb (bytes_eqb (fst (fst rd)) (en_type e)) || forallb (key_field_ok sc e) (snd rd)) rdecls = true.
+  Proof. unfold ent_contract_b. intros H. apply andb_true_iff in H. apply H. Qed.
 
   Definition univ_contract_b (subs : list schema) (U : universe) : bool :=
     forallb (fun s => univ_ok_b s U) subs &&    (* (U1) *)
@@ -109,8 +127,8 @@ Section TvStatic.
     key_declared decls T ks = true -> ent_contract_b e = true -> en_type e = T ->
     forallb (key_field_ok sc e) ks = true.
   Proof.
-    intros Hd He HT. apply key_declared_In in Hd. unfold ent_contract_b in He.
-    apply andb_true_iff in He. destruct He as [He _]. rewrite forallb_forall in He.
+    intros Hd He HT. apply key_declared_In in Hd. apply ent_contract_keys in He.
+    rewrite forallb_forall in He.
     specialize (He _ Hd). cbn [fst snd] in He. rewrite HT, bytes_eqb_refl in He. exact He.
   Qed.
 
@@ -121,7 +139,7 @@ Section TvStatic.
     intros Hs He HT. unfold reqs_covered, sel_reqs. apply forallb_forall. intros x Hx.
     apply in_flat_map in Hx. destruct Hx as (s & Hs_in & Hx).
     unfold reqs_static_b in Hs. rewrite forallb_forall in Hs. specialize (Hs s Hs_in).
-    unfold ent_contract_b in He. apply andb_true_iff in He. destruct He as [_ He]. rewrite forallb_forall in He.
+    apply ent_contract_reqs in He. rewrite forallb_forall in He.
     unfold ent_fval in Hx. destruct (assoc (sel_fname s) (en_fields e)) as [v|] eqn:Ea; [|destruct Hx].
     specialize (He _ (assoc_In _ _ _ Ea)). cbn [fst snd] in He. rewrite HT in He.
     destruct (rdecl_find rdecls T (sel_fname s)) as [rs|].
@@ -212,3 +230,54 @@ Section TvStatic.
     apply (plan_static_ok U eQ ds Hs Hc HeQ).
   Qed.
 End TvStatic.
+
+(* ---- representations that carry more than a declared key (the inputs of @requires fields) ---- *)
+Definition names_incl (a b : list name) : bool := forallb (fun x => mem_bytes x b) a.
+(* some declared key of [T] is among the representation fields *)
+Definition key_covered (decls : list (name * list name)) (T : name) (ks : list name) : bool :=
+  existsb (fun d => bytes_eqb (fst d) T && names_incl (snd d) ks) decls.
+(* every representation field is a field of a declared key of [T] or a declared @requires input of [T] *)
+Definition repr_fields_ok (decls : list (name * list name)) (rdecls : list rdecl) (T : name) (ks : list name) : bool :=
+  forallb (fun x => existsb (fun d => bytes_eqb (fst d) T && mem_bytes x (snd d)) decls ||
+                    existsb (fun rd : rdecl => bytes_eqb (fst (fst rd)) T && mem_bytes x (snd rd)) rdecls) ks.
+
+Lemma repr_members_incl e k ks kv :
+  names_incl k ks = true -> In kv (repr_members e k) -> In kv (repr_members e ks).
+Proof.
+  unfold names_incl, repr_members. intros Hi Hin. apply in_flat_map in Hin. destruct Hin as (x & Hx & Hkv).
+  rewrite forallb_forall in Hi. specialize (Hi x Hx). apply mem_bytes_In in Hi.
+  apply in_flat_map. exists x. split; assumption.
+Qed.
+
+Lemma find_by_repr_superset U e k ks :
+  names_incl k ks = true -> find_by_repr U (repr_of e k) = Some e -> find_by_repr U (repr_of e ks) = Some e.
+Proof.
+  intros Hi. rewrite !find_by_repr_find. intros H. apply (find_stronger _ _ _ _ H); [|apply repr_match_self].
+  intros x. unfold repr_match_ent, repr_of. cbn [obj_get]. rewrite !bytes_eqb_refl.
+  intros Hx. apply andb_true_iff in Hx. destruct Hx as [H1 H2]. rewrite H1. cbn [andb].
+  cbn [repr_matches forallb] in *. rewrite bytes_eqb_refl in *. cbn [andb] in *.
+  rewrite forallb_forall in H2. apply forallb_forall. intros kv Hkv. apply H2. apply (repr_members_incl e k ks kv Hi Hkv).
+Qed.
+
+Lemma key_covered_find decls U e ks :
+  key_consistent decls U = true -> In e U -> key_covered decls (en_type e) ks = true ->
+  find_by_repr U (repr_of e ks) = Some e.
+Proof.
+  intros Hkc He Hc. unfold key_covered in Hc. apply existsb_exists in Hc. destruct Hc as ([t k] & Hin & H).
+  cbn [fst snd] in H. apply andb_true_iff in H. destruct H as [Ht Hi]. apply bytes_eqb_eq in Ht. subst t.
+  apply (find_by_repr_superset U e k ks Hi). apply (key_consistent_find decls U e k Hkc He Hin).
+Qed.
+
+Lemma repr_fields_contract sc decls rdecls T ks e :
+  repr_fields_ok decls rdecls T ks = true -> ent_contract_b sc decls rdecls e = true -> en_type e = T ->
+  forallb (key_field_ok sc e) ks = true.
+Proof.
+  intros Hr He HT. apply forallb_forall. intros x Hx. unfold repr_fields_ok in Hr. rewrite forallb_forall in Hr.
+  specialize (Hr x Hx). apply orb_true_iff in Hr. destruct Hr as [Hr|Hr]; apply existsb_exists in Hr.
+  - destruct Hr as ([t k] & Hd & H). cbn [fst snd] in H. apply andb_true_iff in H. destruct H as [Ht Hm]. apply bytes_eqb_eq in Ht. subst t.
+    pose proof (ent_contract_keys sc decls rdecls e He) as Hk. rewrite forallb_forall in Hk. specialize (Hk _ Hd).
+    cbn [fst snd] in Hk. rewrite HT, bytes_eqb_refl in Hk. cbn [negb orb] in Hk. rewrite forallb_forall in Hk. apply Hk. apply mem_bytes_In. exact Hm.
+  - destruct Hr as ([[t g] rs] & Hd & H). cbn [fst snd] in H. apply andb_true_iff in H. destruct H as [Ht Hm]. apply bytes_eqb_eq in Ht. subst t.
+    pose proof (ent_contract_inputs sc decls rdecls e He) as Hk. rewrite forallb_forall in Hk. specialize (Hk _ Hd).
+    cbn [fst snd] in Hk. rewrite HT, bytes_eqb_refl in Hk. cbn [negb orb] in Hk. rewrite forallb_forall in Hk. apply Hk. apply mem_bytes_In. exact Hm.
+Qed.
